@@ -2287,6 +2287,8 @@ class Interp:
             raise Unmodelled(f'membership in {container!r}')
         if isinstance(container, (Opaque, Ref)):
             raise Unmodelled(f'membership in symbolic {container!r}')
+        if isinstance(container, PyModel) and hasattr(container, '__contains__'):
+            return bool(container.__contains__(item))          # a library model decides membership its own way
         if isinstance(item, Opaque):
             raise Unmodelled('membership of an opaque value')
         if isinstance(item, Rec) and isinstance(item.f.get('cls'), str) and not isinstance(container, str):
